@@ -654,7 +654,7 @@ func (r *stack) transfer(dest *stack) (ok bool) {
 	// if a capacity was set, make sure
 	// the destination can handle it...
 	if dest.cap() > 0 {
-		if r.ulen() > dest.cap()-r.ulen() {
+		if r.ulen() > dest.cap()-dest.len() {
 			// capacity is in-force, and
 			// there are too many slices
 			// to xfer.
